@@ -128,7 +128,7 @@ theorem invV_step (c0 : Cfg) (s s' : PSys) (e : Event) (hc : e.cfgOk c0)
           = nCampaign ((vsys s).nodes i) i := by
         simp [vproj, nCampaign, vsys, List.filterMap_append, List.filterMap_cons, grantOf]
       rw [this]
-      exact invV_campaign hI i hg.2.1 hg.2.2.2
+      exact invV_campaign hI i hg.2.1 hg.2.2.2.1
     · cases h
   | grant i c =>
     simp only [applyEvent, ok] at h
@@ -343,8 +343,8 @@ theorem invV_step (c0 : Cfg) (s s' : PSys) (e : Event) (hc : e.cfgOk c0)
     · rename_i hg
       cases h
       rw [vsys_mk]; show InvV c0 (setN (vsys s) i _)
-      have : vproj { s.nodes i with up := true, term := termAt (s.nodes donor).dlog idx, dterm := termAt (s.nodes donor).dlog idx, log := (s.nodes donor).dlog.take idx, dlog := (s.nodes donor).dlog.take idx, commit := idx, dcommit := idx }
-          = { (vsys s).nodes i with term := termAt (s.nodes donor).dlog idx, dterm := termAt (s.nodes donor).dlog idx } := by
+      have : vproj { s.nodes i with up := true, term := (s.nodes donor).dterm, dterm := (s.nodes donor).dterm, log := (s.nodes donor).dlog.take idx, dlog := (s.nodes donor).dlog.take idx, commit := idx, dcommit := idx }
+          = { (vsys s).nodes i with term := (s.nodes donor).dterm, dterm := (s.nodes donor).dterm } := by
         simp [vproj, vsys]
       rw [this]
       apply invV_boot hI i _ <;> simp [vsys, vproj, hg.1, hg.2.1, hg.2.2.2.2.2.1, hg.2.2.2.2.2.2.2.2.1, hg.2.2.2.2.2.2.2.2.2.1, hg.2.2.2.2.2.2.2.2.2.2.1]
